@@ -40,9 +40,15 @@ func VerifC17_RuleVersusInline() {
 	list = append(list, v2...)
 	list = append(list, ']')
 	var ruleText []byte
-	switch zzverif.IntRange("layout", 0, 2) {
+	switch zzverif.IntRange("layout", 0, 5) {
 	case 0:
 		ruleText = list
+	case 3: // EMPTY stand-alone block annotations after `[`, between the values and before `]`
+		ruleText = vJoin([]byte("[\n  /**/\n  "), v1, []byte(",\n  /* */\n  "), v2, []byte("\n  /**/\n]"))
+	case 4: // stand-alone comment lines with text
+		ruleText = vJoin([]byte("[\n  // the first\n  "), v1, []byte(",\n  /* the\n second */\n  "), v2, []byte("\n]"))
+	case 5: // empty inline annotations
+		ruleText = vJoin([]byte("[ //\n  "), v1, []byte(", //\n  "), v2, []byte(" //\n]"))
 	case 1: // one value per line with inline notes
 		ruleText = append([]byte("[\n  "), v1...)
 		ruleText = append(ruleText, []byte(", // first\n  ")...)
